@@ -323,7 +323,7 @@ def latitude_overlap_contract(en: E.Engine):
     en.ensure(f'_latitude_overlap raises ({r})', False)
     return
   ax = elem.axioms(en)
-  args = en.elem_args.get('sin', [])
+  args = list(en.elem_args.get('sin', [])) + [tl, tu, sl, su]        # monotonicity instances also for the four band edges themselves
   mono = []
   for i, a in enumerate(args):
     for b in args[i + 1:]:
@@ -332,6 +332,41 @@ def latitude_overlap_contract(en: E.Engine):
   en.ensure('latitude overlap entry >= 0', r >= 0, extra=ax + mono)
   en.ensure('latitude overlap entry > 0 iff the two latitude bands intersect in more than a point',
             (r > 0) == (z3.If(tu <= su, tu, su) > z3.If(tl >= sl, tl, sl)), extra=ax + mono)
+  # reduction to the interval overlap: with mu = sin (increasing on [-pi/2, pi/2]) the entry is the length of the intersection of the two
+  # intervals [mu(lo), mu(hi)] -- so the telescoping row sums, conservation and the weights-in-[0,1] clauses proved for _interval_overlap
+  # carry over to latitude bands measured by sin (cell area)
+  mu = elem.SIN
+  mn = lambda a, b: z3.If(a <= b, a, b)
+  mx = lambda a, b: z3.If(a >= b, a, b)
+  inter = mn(mu(tu), mu(su)) - mx(mu(tl), mu(sl))
+  en.ensure('latitude overlap entry == | [sin t_lo, sin t_hi] intersect [sin s_lo, sin s_hi] | (the interval overlap in sin-coordinates)', r == mx(inter, z3.RealVal(0)), extra=ax + mono)
+
+
+def latitude_bounds_contract(en: E.Engine):
+  """_latitude_cell_bounds(x): n+1 bounds, -pi/2 and pi/2 at the ends, midpoints between neighbouring centres in between; increasing for
+  increasing centres inside (-pi/2, pi/2), each centre inside its own cell."""
+  from dinosaur import horizontal_interpolation as hi
+  import numpy as np
+  n = en.int('n')
+  en.assume(n >= 1)
+  XF = z3.Function('lat.at', z3.IntSort(), z3.RealSort())
+  HP = E.to_z3(float(np.pi / 2))
+  x = E.SymSeq(n, lambda i: XF(E.to_z3(i)), z3.RealSort(), 'lat')
+  j = z3.Int('j')
+  en.assume(z3.ForAll([j], z3.Implies(z3.And(j >= 0, j + 1 < n), XF(j) < XF(j + 1))))
+  en.assume(z3.ForAll([j], z3.Implies(z3.And(j >= 0, j < n), z3.And(-HP < XF(j), XF(j) < HP))))
+  en.libspec[('neg', 'SymSeq')] = (None, lambda en_, v: E.SymSeq(v.length, (lambda g: (lambda i: -g(i)))(v.get), z3.RealSort(), f'-{v.name}'))
+  en.cover('requires: increasing centres strictly inside (-pi/2, pi/2)')
+  kind, b = en.invoke(en.load_function(hi._latitude_cell_bounds), x)
+  if kind == 'raise' or not arrays._is_seq(b):
+    en.ensure(f'_latitude_cell_bounds returns a vector ({b})', False)
+    return
+  k = en.int('k')
+  en.assume(z3.And(k >= 0, k < n))
+  en.ensure('n + 1 bounds', E.to_z3(b.length) == n + 1)
+  en.ensure('the first bound is -pi/2 and the last is pi/2', z3.And(b.get(0) == -HP, b.get(n) == HP))
+  en.ensure('interior bounds are the midpoints between neighbouring centres', z3.Implies(k >= 1, b.get(k) == (XF(k - 1) + XF(k)) / 2))
+  en.ensure('bounds increase and every centre lies strictly inside its own cell', z3.And(b.get(k) < XF(k), XF(k) < b.get(k + 1)))
 
 
 def canary_contract(en: E.Engine):
@@ -431,6 +466,8 @@ def clauses():
              rc(periodic_overlap_contract, 4), replay=replay_horizontal, group='pyvc'),
       Clause('smt:_periodic_upper/lower_bounds: midpoints to the cyclic neighbours at their nearest representative, cells tile the circle (all n, seam anywhere)', 'smt',
              [HI + '_periodic_upper_bounds', HI + '_periodic_lower_bounds', HI + '_align_phase_with'], rc(periodic_bounds_contract, 6), replay=replay_periodic_bounds, group='pyvc'),
+      Clause('smt:_latitude_cell_bounds: poles at the ends, midpoints in between, every centre inside its cell (all n)', 'smt', [HI + '_latitude_cell_bounds'],
+             rc(latitude_bounds_contract, 5), group='pyvc'),
       Clause('smt:_latitude_overlap entries >= 0, positive iff the bands intersect (sin increasing, A9)', 'smt', [HI + '_latitude_overlap'], rc(latitude_overlap_contract, 3), group='pyvc'),
       Clause('canary:_align_phase_with always within period/2 must fail', 'smt', [HI + '_align_phase_with'], rc(canary_contract, 1), canary=True, group='pyvc'),
   ]
